@@ -168,7 +168,7 @@ Lemma std_set_In uses base w p :
   <-> In p base \/ (p = "database/sql" /\ (uses "sql.Null" || w) = true)
       \/ exists r, In r stdlib_types /\ uses (fst r) = true /\ snd r = p.
 Proof.
-  unfold std_set. rewrite fold_std_In. destruct (uses "sql.Null" || w).
+  unfold std_set, std_set_tbl. rewrite fold_std_In. destruct (uses "sql.Null" || w).
   - rewrite add_str_In. intuition.
   - intuition. discriminate.
 Qed.
